@@ -164,6 +164,31 @@ def _coqdep():
     return deps
 
 
+class CpuSlot:
+    """Machine-wide semaphore (NCPU+4 flock slots) around each coqc of a correspondence shard, so that several checks
+    running at once (parallel development, parallel mutant testing) do not oversubscribe the cores."""
+
+    def __enter__(self):
+        d = os.path.join(COQ, ".locks")
+        os.makedirs(d, exist_ok=True)
+        n = NCPU + 4
+        start = random.randrange(n)
+        while True:
+            for k in range(n):
+                f = open(os.path.join(d, f"slot{(start + k) % n}"), "w")
+                try:
+                    fcntl.flock(f, fcntl.LOCK_EX | fcntl.LOCK_NB)
+                    self.f = f
+                    return self
+                except OSError:
+                    f.close()
+            time.sleep(0.2)
+
+    def __exit__(self, *a):
+        fcntl.flock(self.f, fcntl.LOCK_UN)
+        self.f.close()
+
+
 class FileLock:
     """Per-file flock so that two runs never compile the same .v at the same time."""
 
@@ -449,10 +474,11 @@ class Ctx:
         self.last_coq_errors = []
 
         def run(p):
-            rc, out = sh(
-                f"ulimit -s unlimited 2>/dev/null; timeout {timeout} coqc -Q {THEORIES} Verif -w none {p}",
-                timeout=timeout + 30, cwd=self.work,
-            )
+            with CpuSlot():
+                rc, out = sh(
+                    f"ulimit -s unlimited 2>/dev/null; timeout {timeout} coqc -Q {THEORIES} Verif -w none {p}",
+                    timeout=timeout + 30, cwd=self.work,
+                )
             if rc != 0:
                 return None, out
             return parse_verdicts(out), out
